@@ -31,8 +31,9 @@ OPEN_STATEMENTS = [
     'inner product of the polynomial representation, all matrix elements, unbounded occupation (hc_boson_adjoint, '
     'hc_boson_term_sound); hc for QuadOperator: the stored key denotes the reversed word (hc_quad_term_sound) - that '
     'q, p are self-adjoint needs the L2 inner product, which the polynomial Spec does not have (oracle: truncated '
-    'matrices); injectivity of the boson key map (no overwriting between terms) is proved (hc_boson_key_injective, '
-    'hc_boson_terms), for the quad key map it is Corr + oracle only',
+    'matrices); injectivity of the boson key map (no overwriting between terms) and the operator-level adjointness of '
+    'the Model function are proved (hc_boson_key_injective, hc_boson_terms, hc_boson_operator_adjoint); for the quad '
+    'key map injectivity is Corr + oracle only',
     'commutator_def / anticommutator_def are proved for every term functional in the exact regime of the in-place '
     'addition (hypothesis ExactAdd: no non-zero coefficient below EQ_TOLERANCE is pruned); double_commutator_def is '
     'proved in every ring interpretation satisfying the CAR and on the Fock space of the Spec (generic path; '
